@@ -683,6 +683,7 @@ def gen_chain(rng, maxlen=4, doc=None, wild=False):
     attr_seen = has_attr(ops[0][1])
     written = []
     read_live = set()
+    written_live = set()
     for _ in range(n):
         for _try in range(20):
             op = gen_op(rng, 2, doc)
@@ -697,16 +698,19 @@ def gen_chain(rng, maxlen=4, doc=None, wild=False):
             op = [op[0], ['buf', rng.choice(written)]]
         if op[0] == 'buffer':
             read_live = set()
+            written_live = set()
         if op[0] in INJECT and op[1][0] == 'buf':
             read_live.add(op[1][1])
         if op[0] in ('copy', 'cut'):
-            if op[1] in read_live:
-                # a buffer may not be written downstream of an injector that is still reading it
-                # (no buffer() barrier in between): the injected list would grow under its own
-                # iteration and the chain need not terminate — aliasing misuse, not generated
-                free = [i for i in (0, 1, 2) if i not in read_live]
+            if op[1] in read_live or op[1] in written_live:
+                # hypotheses of the known findings C20-buffer-feedback / C20-buffer-two-writers: between
+                # two buffer() barriers a buffer is not written downstream of an injector that reads it
+                # (the injected list grows under its own iteration) and has one writer only (the lazily
+                # interleaved writers reset / extend each other's half-copied selection)
+                free = [i for i in (0, 1, 2, 3, 4) if i not in read_live and i not in written_live]
                 op = [op[0], free[0], op[2]]
             written.append(op[1])
+            written_live.add(op[1])
         ops.append(op)
     return ops
 
